@@ -184,17 +184,42 @@ func (g *c19Rig) startServer() error {
 	if err != nil {
 		return err
 	}
-	select {
-	case <-done:
-	case <-timeout:
-		return fmt.Errorf("StartServer reported timeout")
-	case <-time.After(180 * time.Second):
-		return fmt.Errorf("StartServer not ready within 180s")
+	// While the server was down every etcd client's connection attempts backed off (gRPC:
+	// 1 s x 1.6 per failure); after an outage of 10-20 s the next attempt can be further
+	// away than the request timeout, and easegress' own start-up step "register cluster
+	// name" (a Put with that timeout, issued the moment the server is ready) then panics
+	// the process.  That is the environment's business, not the syncer's: the harness makes
+	// the clients re-dial at once while the server comes up.
+	giveUp := time.After(180 * time.Second)
+	kick := time.NewTicker(100 * time.Millisecond)
+	defer kick.Stop()
+wait:
+	for {
+		select {
+		case <-done:
+			break wait
+		case <-timeout:
+			return fmt.Errorf("StartServer reported timeout")
+		case <-giveUp:
+			return fmt.Errorf("StartServer not ready within 180s")
+		case <-kick.C:
+			g.redial()
+		}
 	}
+	g.redial()
 	g.upSince = time.Now()
 	g.down = false
 	_, err = g.waitRev(c19HarnessTimeout)
 	return err
+}
+
+// redial ends the reconnect back-off of the cluster's etcd client and of the harness' clients.
+func (g *c19Rig) redial() {
+	if cl, err := g.c.getClient(); err == nil && cl != nil {
+		cl.ActiveConnection().ResetConnectBackoff()
+	}
+	g.cli.ActiveConnection().ResetConnectBackoff()
+	g.relayCli.ActiveConnection().ResetConnectBackoff()
 }
 
 // refresh restarts the server between cases when it is old enough for its periodic
